@@ -338,7 +338,7 @@ func (n gnum) value() *big.Rat {
 	bi, _ := new(big.Int).SetString(n.Int+n.Frac, 10)
 	v := new(big.Rat).SetInt(bi)
 	sc := n.expValue() - len(n.Frac)
-	p := new(big.Int).Exp(big.NewInt(10), big.NewInt(int64(abs(sc))), nil)
+	p := new(big.Int).Exp(big.NewInt(10), big.NewInt(int64(c02abs(sc))), nil)
 	if sc >= 0 {
 		v.Mul(v, new(big.Rat).SetInt(p))
 	} else {
@@ -352,7 +352,7 @@ func (n gnum) value() *big.Rat {
 
 func (n gnum) decimals() int { return len(n.Frac) - n.expValue() }
 
-func abs(x int) int {
+func c02abs(x int) int {
 	if x < 0 {
 		return -x
 	}
@@ -394,7 +394,7 @@ func notateOnce(c *Ctx, coef *big.Int, scale int, neg bool) gnum {
 		}
 		scale = ms
 		ge := &gexp{Up: r.IntN(2) == 0}
-		ae := abs(e)
+		ae := c02abs(e)
 		ge.Digits = fmt.Sprint(ae)
 		if r.IntN(6) == 0 {
 			ge.Digits = "0" + ge.Digits
@@ -787,7 +787,7 @@ func specFor(sym string) commSpec {
 
 // genTransaction builds postings + text.  special: 0 none, 2 force a zero-quantity posting with
 // a total cost (repaired by fix-zero-quantity-total-cost).
-func genTransaction(c *Ctx, special int, date string) genTx {
+func c02genTransaction(c *Ctx, special int, date string) genTx {
 	r := c.R
 	ncomm := 1 + r.IntN(3)
 	comms := []commSpec{}
@@ -1158,14 +1158,14 @@ func c20HoverCase(text string, truth any) map[string]any {
 		"impl": J{"accounts": accounts, "payees": payees, "amounts": amounts, "tags": tags}}
 }
 
-func genJournal(c *Ctx, maxTx int) (string, []any, bool) {
+func c02genJournal(c *Ctx, maxTx int) (string, []any, bool) {
 	r := c.R
 	n := 1 + r.IntN(maxTx)
 	var sb strings.Builder
 	truth := []any{}
 	dom := true
 	for i := 0; i < n; i++ {
-		g := genTransaction(c, 0, fmt.Sprintf("2024-%02d-%02d", 1+r.IntN(12), 1+r.IntN(28)))
+		g := c02genTransaction(c, 0, fmt.Sprintf("2024-%02d-%02d", 1+r.IntN(12), 1+r.IntN(28)))
 		sb.WriteString(g.text)
 		if r.IntN(4) != 0 || i == n-1 {
 			sb.WriteString("\n")
@@ -1217,7 +1217,7 @@ func genC02(c *Ctx) {
 		if r.IntN(150) == 0 {
 			special = 2
 		}
-		g := genTransaction(c, special, "2024-01-15")
+		g := c02genTransaction(c, special, "2024-01-15")
 		if !g.dom {
 			// outside the property's quantifier (DESIGN C02): nothing is compared there
 			c.Count("tx.out-of-domain(skipped)")
@@ -1227,7 +1227,7 @@ func genC02(c *Ctx) {
 		c.Emit("c02.check", c02CheckCase(g.text, normJ(truthJ(g.ps)), g.dom))
 	}
 	for i := 0; i < c.N(600, 30000); i++ {
-		text, truth, dom := genJournal(c, 4)
+		text, truth, dom := c02genJournal(c, 4)
 		if !dom {
 			continue
 		}
@@ -1238,11 +1238,11 @@ func genC02(c *Ctx) {
 func genC20(c *Ctx) {
 	riskRate = 0
 	for i := 0; i < c.N(400, 20000); i++ {
-		text, truth, _ := genJournal(c, 6)
+		text, truth, _ := c02genJournal(c, 6)
 		c.Emit("c20.hover", c20HoverCase(text, normJ(truth)))
 	}
 	for i := 0; i < c.N(800, 40000); i++ {
-		text, truth, _ := genJournal(c, 6)
+		text, truth, _ := c02genJournal(c, 6)
 		c.Emit("c20.balances", c20BalancesCase(text, normJ(truth)))
 	}
 	r := c.R
